@@ -238,7 +238,7 @@ func (e *Engine) callMethodStr(it Iface, name string) (Str, bool) {
 	if p, ok := it.v.(*Value); ok && p == nil {
 		return mkStr("<nil>"), true
 	}
-	r := e.callSSA(nil, token.NoPos, m, []Value{it.v}, nil)
+	r := e.callSSA(e.top, token.NoPos, m, []Value{it.v}, nil) // the frame that called fmt is the caller (complete stacks)
 	return e.force(r), true
 }
 
